@@ -22,9 +22,55 @@ import (
 )
 
 var vhRepo *vrepo.Repo
+var vhOpenLoaders []repository.ClockLoader
+var vhOpenNamespace string
 
 func vhOpenRepo(path, namespace string, loaders []repository.ClockLoader) (repository.ClockedRepo, error) {
+	vhOpenLoaders = loaders
+	vhOpenNamespace = namespace
 	return vhRepo, nil
+}
+
+// VH_C05_cli: the command line opens the repository in a way that lets it rebuild missing
+// clocks: the clock loaders handed to OpenGoGitRepo cover every clock of every entity type
+// with Lamport clocks (what OpenGoGitRepo does with them is H_C05_open, what the loaders
+// do is H_C05_rebuild), and git-bug's files are rooted at the git-bug namespace (C15).
+func VH_C05_cli() {
+	fx := cache.VHNewFixture()
+	vhRepo = fx.Repo
+	vhOpenLoaders = nil
+	// an earlier command left valid cache files behind (no cache build, no progress bar)
+	c0, err := cache.NewRepoCacheNoEvents(fx.Repo)
+	rt.Assume(err == nil)
+	rt.Assume(c0.Close() == nil)
+	env := &Env{Out: &TestOut{Buffer: &bytes.Buffer{}}, Err: &TestOut{Buffer: &bytes.Buffer{}}}
+	var pre func(*cobra.Command, []string) error
+	switch rt.Choose(3) {
+	case 0:
+		pre = LoadRepo(env)
+	case 1:
+		pre = LoadRepoEnsureUser(env)
+	default:
+		pre = LoadBackend(env)
+		interrupt.VHReset()
+	}
+	rt.Assert(pre(nil, nil) == nil, "repository-opens")
+	rt.Assert(vhOpenNamespace == "git-bug", "local-storage-namespace-is-git-bug")
+	for _, clock := range []string{"bugs-create", "bugs-edit"} {
+		covered := false
+		for _, l := range vhOpenLoaders {
+			for _, c := range l.Clocks {
+				if c == clock {
+					covered = l.Witnesser != nil
+				}
+			}
+		}
+		rt.Assert(covered, "cli-opens-the-repository-with-the-clock-loaders")
+	}
+	if env.Backend != nil {
+		_ = env.Backend.Close()
+	}
+	rt.Cover("opened")
 }
 
 func VH_C19_commands() {
